@@ -84,6 +84,13 @@ CATALOGUE = {
     'on-key': b'ON KEY(A%) GOSUB 0',
     'palette': b'PALETTE A%,B%',
     'noise': b'NOISE A%,B%,C%',
+    # memory between the FIELD buffers, string operand of a logical operator, pointer strings in PLAY/DRAW
+    'peek-field-gap': b'R%=PEEK(3900+(A% AND 511))',
+    'poke-field-gap': b'POKE 3900+(A% AND 511),B% AND 255',
+    'imp-string': b'R%=A% IMP "A"',
+    'logic-string': b'R%=(A% AND "A")+("B" OR B%)+("C" XOR C%)+(A% EQV "D")+("E" IMP B%)',
+    'play-pointer': b'PLAY "O="+CHR$(A% AND 255)+CHR$(0)+CHR$(0)',
+    'draw-pointer': b'SCREEN 1: DRAW "R="+CHR$(A% AND 15)+CHR$(B% AND 1)+CHR$(0)',
     # an error in the middle of a string expression (a temporary is on the evaluation stack)
     'temp-then-error': b'R$=("te"+"mp")+CHR$(A%)',
     'temp-then-error-2': b'R$=LEFT$("ab"+"cd",A% AND 7)+CHR$(B%)',
